@@ -52,6 +52,12 @@ fn preset(name: &str) -> MmapVecConfig {
         "memopt" => MmapVecConfig::memory_optimized(),
         "realtime" => MmapVecConfig::realtime(),
         "large" => MmapVecConfig::large_dataset(),
+        s if s.starts_with("bld:") => { // bld:<cap>:<read_only 0/1>:<populate 0/1>:<huge 0/1>  (every MmapVecConfigBuilder setter)
+            let p: Vec<&str> = s.split(':').collect();
+            let f = |i: usize| p.get(i).map(|x| *x == "1").unwrap_or(false);
+            let cap = p.get(1).and_then(|x| x.parse().ok()).unwrap_or(8usize);
+            MmapVecConfig::builder().with_initial_capacity(cap).with_growth_factor(1.5).with_read_only(f(2)).with_populate_pages(f(3)).with_huge_pages(f(4)).with_sync_on_write(false).build()
+        }
         s => { // small:<cap>:<growth*1000>:<sync_on_write 0/1>
             let p: Vec<&str> = s.split(':').collect();
             let cap = p.get(1).and_then(|x| x.parse().ok()).unwrap_or(8usize);
@@ -105,6 +111,11 @@ fn child_job(job: &Value, j: u64, outf: &mut std::fs::File) -> CR {
         "zipoffset" => child_zipoffset(&path),
         "sadict" => child_sadict(&path, job),
         "dictzip" => child_dictzip(&path, job),
+        "io_api" => child_io_api(&path, job),
+        "reorder_cursor" => child_reorder_cursor(&path, j, outf),
+        "zipoffset_cached" => child_zipoffset_cached(&path),
+        "sadict_m" => child_sadict_m(&path, job),
+        "dictzip_load" => child_dictzip_load(&path, job),
         k => CR::Incons(format!("unknown job kind {k}")),
     }
 }
@@ -778,7 +789,8 @@ fn reorder_values(c: &mut Case, sign: i64) -> Vec<usize> {
     }
     v
 }
-fn reorder_case(c: &mut Case, fam: &str) -> Res {
+fn reorder_case(c: &mut Case, fam: &str) -> Res { reorder_case_k(c, fam, "reorder") }
+fn reorder_case_k(c: &mut Case, fam: &str, kind: &'static str) -> Res {
     let (huge, fam) = split_huge(fam);
     let td = tempfile::tempdir().map_err(|e| bad("harness_io", e.to_string()))?;
     let path = td.path().join("reorder.map");
@@ -795,7 +807,7 @@ fn reorder_case(c: &mut Case, fam: &str) -> Res {
     }
     let h = Hist { snaps, models, hdr: 16, esz: 5, dirty: None, extra: vec![] };
     if fam == "trunc" { c.tag("reorder_cut_after_first_entry"); }
-    let mk = |p: &Path| json!({"k": "reorder", "path": p.to_string_lossy()});
+    let mk = move |p: &Path| json!({"k": kind, "path": p.to_string_lossy()});
     single_file_case(c, fam, &h, td.path(), &mk, Some(8))
 }
 
@@ -1083,6 +1095,457 @@ fn extsort_case(c: &mut Case, fam: &str) -> Res {
     }
 }
 
+
+// =============================================================================================
+// GAP families (appended): alternative constructors / cursors / zero-copy reads / bulk copies / caches of the same
+// file-backed structures. Only `clean` and `trunc` state families are used.
+// =============================================================================================
+use zipora::blob_store::{NestLoudsTrieBlobStore, TrieBlobStoreConfig};
+use zipora::compression::dict_zip::ConcurrentSuffixArrayDictionary;
+type Nlt = NestLoudsTrieBlobStore<zipora::RankSelectInterleaved256>;
+
+// ---- io_mmap: from_path / new(File), is_empty, position, peek_slice, peek_slice_zero_copy, read_slice_zero_copy; Output::remaining
+fn child_io_api(path: &Path, job: &Value) -> CR {
+    let r = if job["via_file"].as_bool().unwrap_or(false) { match std::fs::File::open(path) { Ok(f) => MemoryMappedInput::new(f), Err(e) => return CR::Err(e.to_string()) } } else { MemoryMappedInput::from_path(path) };
+    let mut inp = match r { Ok(i) => i, Err(e) => return CR::Err(e.to_string()) };
+    let n = inp.len();
+    if inp.is_empty() != (n == 0) { return CR::Incons(format!("is_empty()={} with len {n}", inp.is_empty())); }
+    if inp.position() != 0 || inp.remaining() != n { return CR::Incons(format!("fresh input: position {} remaining {} len {n}", inp.position(), inp.remaining())); }
+    let strat = format!("{:?}", inp.strategy());
+    let mapped = strat != "BufferedIO"; // the buffered strategy documents peek / zero-copy as not supported
+    let mut raw = Vec::with_capacity(n); let mut k = 0usize; let (mut zc, mut pk) = (0u64, 0u64);
+    while inp.remaining() > 0 {
+        let pos = inp.position();
+        let want = [1usize, 5, 64, 4096, 3, 1000, 65536, 17][k % 8].min(inp.remaining()); k += 1;
+        let p1 = inp.peek_slice(want).map_err(|e| e.to_string());
+        let p2 = inp.peek_slice_zero_copy(want).map(|s| s.to_vec()).map_err(|e| e.to_string());
+        if inp.position() != pos { return CR::Incons("peek moved the cursor".into()); }
+        let mut d: Option<Vec<u8>> = None;
+        if k % 2 == 0 { match inp.read_slice_zero_copy(want) { Ok(s) => { zc += 1; d = Some(s.to_vec()); } Err(e) => { if mapped { return CR::Incons(format!("read_slice_zero_copy({want}) inside len failed at {pos}: {e}")); } if inp.position() != pos { return CR::Incons("failed zero-copy read moved the cursor".into()); } } } }
+        let d = match d { Some(d) => d, None => match inp.read_slice(want) { Ok(d) => d, Err(e) => return CR::Incons(format!("read_slice({want}) inside len failed at {pos}: {e}")) } };
+        if d.len() != want || inp.position() != pos + want || inp.remaining() != n - pos - want { return CR::Incons(format!("after reading {want} at {pos}: got {} bytes, position {}, remaining {}", d.len(), inp.position(), inp.remaining())); }
+        for (name, p) in [("peek_slice", &p1), ("peek_slice_zero_copy", &p2)] { match p { Ok(x) => { if *x != d { return CR::Incons(format!("{name}({want}) at {pos} differs from the read that follows")); } pk += 1; } Err(e) => if mapped { return CR::Incons(format!("{name}({want}) inside len failed at {pos}: {e}")); } } }
+        raw.extend_from_slice(&d);
+    }
+    if inp.peek_slice(1).is_ok() || inp.peek_slice_zero_copy(1).is_ok() || inp.read_slice_zero_copy(1).is_ok() { return CR::Incons("peek / zero-copy read past the end succeeded".into()); }
+    if n > 0 { let h = n / 2; if inp.seek(h).is_err() || inp.position() != h || inp.remaining() != n - h { return CR::Incons("seek(len/2)".into()); }
+        let w = (n - h).min(9); if mapped { match inp.peek_slice_zero_copy(w) { Ok(x) if x == &raw[h..h + w] => {} _ => return CR::Incons("peek after seek differs from the bytes read sequentially".into()) } } }
+    let mut content = (raw.len() as u64).to_le_bytes().to_vec(); content.extend_from_slice(&raw);
+    CR::Ok { len: n as u64, content, notes: vec![(format!("strategy:{strat}"), 1), ("zero_copy_reads".into(), zc), ("peeks".into(), pk)] }
+}
+fn io_api_case(c: &mut Case, fam: &str) -> Res {
+    let td = tempfile::tempdir().map_err(|e| bad("harness_io", e.to_string()))?;
+    let path = td.path().join("out.bin");
+    let mut snaps: Vec<Snap> = Vec::new(); let mut models: Vec<Vec<u8>> = Vec::new();
+    for ver in 0..2 {
+        let n = match c.rng.below(4) { 0 => *c.rng.pick(&[1usize, 4095, 4096, 4097, 8192]), 1 => 4097 + c.rng.usize_below(70_000), _ => 1 + c.rng.usize_below(6000) };
+        let kind = c.rng.below(gen::BYTE_KINDS as u64) as u32; let data = gen::bytes_kind(&mut c.rng, kind, n);
+        let init = *c.rng.pick(&[1usize, 16, 4096, 5000]);
+        c.input(&format!("data{ver}_init{init}"), &data);
+        let r = catch(|| -> Result<(), Fail> {
+            let mut o = MemoryMappedOutput::create(&path, init).map_err(|e| bad("create_err", format!("create({init}) failed: {e}")))?;
+            let mut pos = 0usize;
+            for ch in data.chunks((data.len() / 3).max(1)) { o.write_slice(ch).map_err(|e| bad("op_err", format!("write_slice failed: {e}")))?; pos += ch.len();
+                if o.position() != pos || o.remaining() != o.capacity() - pos { return Err(bad("inmem_diverged", format!("position {} remaining {} capacity {} after writing {pos} bytes", o.position(), o.remaining(), o.capacity()))); } }
+            o.truncate().map_err(|e| bad("op_err", format!("truncate failed: {e}")))?;
+            if o.remaining() != 0 { return Err(bad("inmem_diverged", format!("remaining() = {} after truncate()", o.remaining()))); }
+            o.flush().map_err(|e| bad("op_err", format!("flush failed: {e}")))
+        });
+        match r { Ok(Ok(())) => {} Ok(Err(f)) => return Err(f), Err(p) => return Err(bad(&p.class(), format!("writer panicked at {}: {}", p.loc, p.msg))) }
+        models.push(io_ref_content(&data, ""));
+        snaps.push(Snap { bytes: std::fs::read(&path).map_err(|e| bad("harness_io", e.to_string()))?, upto: models.len(), model: models.len() - 1 });
+    }
+    let mut rng = c.rng.fork();
+    let h = Hist { snaps, models, hdr: 0, esz: 1, dirty: None, extra: vec![] };
+    let mut states = if fam == "api_clean" { clean_states(&h) } else { fault_states("trunc", &h, 1, &mut rng, c.tier == crate::ctx::Tier::Quick) };
+    if states.len() > 40 { rng.shuffle(&mut states); states.truncate(40); }
+    c.tag(&format!("f:{fam}"));
+    // a header-less byte stream vouches only for its own bytes
+    let mut models = h.models.clone();
+    if fam != "api_clean" { for s in states.iter_mut() { models.push(io_ref_content(&s.bytes, "")); s.lo = models.len() - 1; s.hi = models.len(); } }
+    let via_file = rng.bool(); c.input_str("via_file", &via_file.to_string());
+    let mk = move |p: &Path| json!({"k": "io_api", "via_file": via_file, "path": p.to_string_lossy()});
+    let mut agg = Agg::for_family(if fam == "api_clean" { "clean" } else { "trunc" });
+    let outs = run_file_states(c, td.path(), &states, &mk, &models, None, &mut agg);
+    for o in &outs { if let Out::Ok { notes, .. } = o { for (k, v) in notes { c.note(k, *v); } } }
+    c.set_nontrivial(!states.is_empty());
+    agg.finish(c)
+}
+
+// ---- reorder: cursor API (index / current) and rewind
+fn child_reorder_cursor(path: &Path, j: u64, outf: &mut std::fs::File) -> CR {
+    let mut m = match ZReorderMap::open(path) { Ok(m) => m, Err(e) => return CR::Err(e.to_string()) };
+    let size = m.size();
+    line(outf, json!({"j": j, "st": "opened", "len": size as u64, "cap": 0}));
+    let mut passes: Vec<Vec<u8>> = Vec::new();
+    for pass in 0..2 {
+        let mut out = Vec::new(); let mut n = 0usize;
+        while !m.eof() && n < 50_000_000 {
+            let (i, cur) = (m.index(), m.current());
+            if i != n { return CR::Incons(format!("pass {pass}: index() = {i} before element {n}")); }
+            match m.next() { Some(v) => { if v != cur { return CR::Incons(format!("pass {pass}: current() = {cur} but next() = {v} at element {n}")); } out.extend_from_slice(&(v as u64).to_le_bytes()); n += 1; } None => return CR::Incons(format!("pass {pass}: next() is None while !eof() at element {n}")) }
+        }
+        if m.next().is_some() { return CR::Incons("next() is Some at eof()".into()); }
+        passes.push(out);
+        if pass == 0 { if let Err(e) = m.rewind() { return CR::Incons(format!("rewind() of an opened map failed: {e}")); } if m.size() != size { return CR::Incons("size() changed by rewind()".into()); } }
+    }
+    if passes[0] != passes[1] { return CR::Incons("second pass after rewind() differs from the first".into()); }
+    let n = passes[0].len() as u64 / 8;
+    CR::Ok { len: size as u64, content: passes.swap_remove(0), notes: vec![("declared".to_string(), size as u64), ("yielded".to_string(), n)] }
+}
+
+// ---- zipoffset: offset cache == no cache; security_optimized preset; empty store from new(); NestLoudsTrieBlobStore's inner store
+fn child_zipoffset_cached(path: &Path) -> CR {
+    let mut s = match ZipOffsetBlobStore::load_from_file(path) { Ok(s) => s, Err(e) => return CR::Err(e.to_string()) };
+    let plain = match canon_blobs(&s) { Ok(c) => c, Err(e) => return CR::Incons(e) };
+    s.enable_offset_cache(); s.enable_offset_cache();
+    let cached = match canon_blobs(&s) { Ok(c) => c, Err(e) => return CR::Incons(format!("with offset cache: {e}")) };
+    if cached != plain { return CR::Incons("content read with the offset cache enabled differs from the uncached content".into()); }
+    for i in (0..s.len()).rev() { match s.get(i as u32) { Ok(d) => { if s.size(i as u32).ok().flatten() != Some(d.len()) { return CR::Incons(format!("size({i}) disagrees with get({i}).len() = {}", d.len())); } } Err(e) => return CR::Incons(format!("reverse get({i}) with offset cache failed: {e}")) } }
+    if s.get(s.len() as u32).is_ok() { return CR::Incons("get(len) succeeded".into()); }
+    CR::Ok { len: s.len() as u64, content: plain, notes: vec![] }
+}
+fn zipoffset_cached_case(c: &mut Case, fam: &str) -> Res {
+    let td = tempfile::tempdir().map_err(|e| bad("harness_io", e.to_string()))?;
+    let path = td.path().join("store.zo");
+    let mut snaps = Vec::new(); let mut models: Vec<Vec<u8>> = Vec::new();
+    for ver in 0..2 {
+        let which = c.rng.below(5);
+        let cfg = match which { 0 | 1 => ZipOffsetBlobStoreConfig::security_optimized(), 2 => ZipOffsetBlobStoreConfig::default(), 3 => ZipOffsetBlobStoreConfig::performance_optimized(), _ => ZipOffsetBlobStoreConfig::default() };
+        let empty_new = which == 4 && ver == 0 && c.rng.chance(1, 2);
+        c.input_str(&format!("cfg{ver}"), &format!("{which}/{empty_new}"));
+        let n = 1 + c.rng.usize_below(40);
+        let recs: Vec<Vec<u8>> = (0..n).map(|_| gen::bytes_any(&mut c.rng, 500).1).collect();
+        for r in &recs { c.input("rec", r); }
+        let r = catch(|| -> zipora::error::Result<ZipOffsetBlobStore> { if empty_new { return ZipOffsetBlobStore::new(); } let mut b = ZipOffsetBlobStoreBuilder::with_config(cfg)?; for r in &recs { b.add_record(r)?; } b.finish() });
+        let store = match r { Ok(Ok(s)) => s, Ok(Err(e)) => return Err(bad("op_err", format!("builder failed: {e}"))), Err(p) => return Err(bad(&p.class(), format!("builder panicked at {}", p.loc))) };
+        let m = canon_blobs(&store).map_err(|e| bad("inmem_read_err", e))?;
+        if empty_new && store.len() != 0 { return fail("inmem_diverged", format!("ZipOffsetBlobStore::new() has {} records", store.len())); }
+        match catch(|| store.save_to_file(&path)) { Ok(Ok(())) => {} Ok(Err(e)) => return Err(bad("op_err", format!("save_to_file failed: {e}"))), Err(p) => return Err(bad(&p.class(), format!("save panicked at {}", p.loc))) }
+        models.push(m);
+        snaps.push(Snap { bytes: std::fs::read(&path).map_err(|e| bad("harness_io", e.to_string()))?, upto: models.len(), model: models.len() - 1 });
+    }
+    let h = Hist { snaps, models, hdr: 128, esz: 1, dirty: None, extra: vec![] };
+    let mk = |p: &Path| json!({"k": "zipoffset_cached", "path": p.to_string_lossy()});
+    single_file_case(c, if fam == "cached_clean" { "clean" } else { "trunc" }, &h, td.path(), &mk, None)
+}
+
+fn nlt_keys(c: &mut Case, n: usize) -> Vec<Vec<u8>> {
+    let mut set: BTreeSet<Vec<u8>> = BTreeSet::new();
+    let roots: [&[u8]; 4] = [b"user/", b"usr/", b"u", b"data/log/"];
+    let mut guard = 0;
+    while set.len() < n && guard < 10 * n + 10 { guard += 1;
+        let mut k = c.rng.pick(&roots).to_vec(); let l = 1 + c.rng.usize_below(8);
+        for _ in 0..l { k.push(*c.rng.pick(b"abcde/xyz01")); }
+        set.insert(k); }
+    let mut v: Vec<Vec<u8>> = set.into_iter().collect(); c.rng.shuffle(&mut v); v
+}
+fn nlt_cfg(c: &mut Case) -> (String, TrieBlobStoreConfig) {
+    match c.rng.below(5) {
+        0 => ("new".into(), TrieBlobStoreConfig::new()), 1 => ("perf".into(), TrieBlobStoreConfig::performance_optimized()), 2 => ("mem".into(), TrieBlobStoreConfig::memory_optimized()), 3 => ("sec".into(), TrieBlobStoreConfig::security_optimized()),
+        _ => { let (kc, bo, st, ks) = (c.rng.bool(), c.rng.bool(), c.rng.bool(), *c.rng.pick(&[0usize, 1, 4, 1024]));
+            let b = TrieBlobStoreConfig::builder().trie_config(zipora::ZiporaTrieConfig::default()).blob_config(if c.rng.bool() { ZipOffsetBlobStoreConfig::default() } else { ZipOffsetBlobStoreConfig::security_optimized() })
+                .memory_config(zipora::memory::SecurePoolConfig::small_secure()).key_compression(kc).batch_optimization(bo).key_cache_size(ks).statistics(st);
+            (format!("builder:{kc}/{bo}/{st}/{ks}"), b.build().unwrap_or_else(|_| TrieBlobStoreConfig::new())) }
+    }
+}
+/// keyed read-back of a store against the (distinct-key) pairs it was built from
+fn nlt_check(store: &mut Nlt, pairs: &[(Vec<u8>, Vec<u8>)], c: &mut Case) -> Res {
+    let by_key: BTreeMap<&[u8], &[u8]> = pairs.iter().map(|(k, v)| (&k[..], &v[..])).collect();
+    for (k, v) in pairs {
+        ensure!(store.contains_key(k), "nlt_key_lost", "contains_key({:?}) is false", String::from_utf8_lossy(k));
+        match store.get_by_key(k) { Ok(d) => ensure!(&d == v, "nlt_value_mismatch", "get_by_key({:?}) returned {} bytes, want {}", String::from_utf8_lossy(k), d.len(), v.len()), Err(e) => return fail("nlt_key_lost", format!("get_by_key({:?}) failed: {e}", String::from_utf8_lossy(k))) }
+        c.ev(2);
+    }
+    let want: Vec<Vec<u8>> = by_key.keys().map(|k| k.to_vec()).collect();
+    match store.keys() { Ok(ks) => ensure!(ks == want, "nlt_keys_mismatch", "keys() returned {} keys, want {}", ks.len(), want.len()), Err(e) => return fail("nlt_keys_mismatch", format!("keys() failed: {e}")) }
+    for prefix in [&b"user/"[..], b"u", b"usr/a", b"data/log/x", b"zzz", b""] {
+        let wk: Vec<Vec<u8>> = want.iter().filter(|k| k.starts_with(prefix)).cloned().collect();
+        match store.keys_with_prefix(prefix) { Ok(ks) => ensure!(ks == wk, "nlt_prefix_mismatch", "keys_with_prefix({:?}) returned {} keys, want {}", String::from_utf8_lossy(prefix), ks.len(), wk.len()), Err(e) => return fail("nlt_prefix_mismatch", format!("keys_with_prefix failed: {e}")) }
+        match store.get_by_prefix(prefix) { Ok(kv) => { let w: Vec<(Vec<u8>, Vec<u8>)> = wk.iter().map(|k| (k.clone(), by_key[&k[..]].to_vec())).collect(); ensure!(kv == w, "nlt_prefix_mismatch", "get_by_prefix({:?}) returned {} pairs, want {}", String::from_utf8_lossy(prefix), kv.len(), w.len()) } Err(e) => return fail("nlt_prefix_mismatch", format!("get_by_prefix failed: {e}")) }
+        c.ev(2);
+    }
+    if store.config().enable_statistics { c.note("key_count_eq_n", (store.key_count() == pairs.len()) as u64); }
+    ensure!(!store.contains_key(b"user/~absent~"), "nlt_phantom_key", "contains_key of an absent key is true");
+    Ok(())
+}
+/// NestLoudsTrieBlobStore built four ways; the inner ZipOffsetBlobStore (blob_store()) is the file-backed part: saved, reopened in the child
+fn nlt_case(c: &mut Case, fam: &str) -> Res {
+    let td = tempfile::tempdir().map_err(|e| bad("harness_io", e.to_string()))?;
+    let path = td.path().join("nlt.zo");
+    let mut snaps = Vec::new(); let mut models: Vec<Vec<u8>> = Vec::new();
+    for ver in 0..2 {
+        let n = 1 + c.rng.usize_below(24);
+        let keys = nlt_keys(c, n);
+        let route = c.rng.below(6);
+        let pairs: Vec<(Vec<u8>, Vec<u8>)> = keys.into_iter().map(|k| { let v = if route >= 4 { k.clone() } else { let mut v = gen::bytes_any(&mut c.rng, 300).1; v.push(7); v }; (k, v) }).collect();
+        for (k, v) in &pairs { c.input("key", k); c.input("val", v); }
+        let (cname, cfg) = nlt_cfg(c);
+        c.input_str(&format!("route{ver}"), &format!("{route}/{cname}"));
+        let sorted = cfg.enable_batch_optimization;
+        let tcfg = zipora::config::nest_louds_trie::NestLoudsTrieConfig::default();
+        let mut progress = 0usize; let alt = c.rng.bool();
+        let built = catch(|| -> zipora::error::Result<(Nlt, bool)> { Ok(match route {
+            0 => { let mut s = Nlt::new(cfg.clone())?; let h = pairs.len() / 2; let mut ids = Vec::new(); for (k, v) in &pairs[..h] { ids.push(s.put_with_key(k, v)?); } ids.extend(s.put_batch_with_keys(pairs[h..].iter().cloned())?);
+                if ids != (0..pairs.len() as u32).collect::<Vec<u32>>() { return Err(zipora::error::ZiporaError::invalid_data("ZV: record ids are not 0..n in put order")); } (s, false) }
+            1 => { let mut b = Nlt::builder(cfg.clone())?; b.reserve(pairs.len()); let h = pairs.len() / 2; for (k, v) in &pairs[..h] { b.add(k, v)?; } b.add_batch(pairs[h..].iter().cloned())?;
+                if b.len() != pairs.len() || b.is_empty() { return Err(zipora::error::ZiporaError::invalid_data("ZV: builder len()")); } (b.finish()?, sorted) }
+            2 => { let mut b = Nlt::builder(cfg.clone())?; b.add_batch(pairs.iter().cloned())?; (b.finish_with_progress(|cur, _tot| { progress = cur; })?, sorted) }
+            3 => { let mut b = if alt { Nlt::builder_default()? } else { zipora::blob_store::NestLoudsTrieBlobStoreBuilder::<zipora::RankSelectInterleaved256>::default()? }; for (k, v) in &pairs { b.add(k, v)?; } b.sort_entries(); (b.finish()?, true) }
+            4 => { let mut sv = zipora::containers::specialized::SortableStrVec::new(); for (k, _) in &pairs { sv.push_str(std::str::from_utf8(k).unwrap_or("x"))?; } (Nlt::build_from_sortable_str_vec(&sv, &tcfg)?, false) }
+            _ => (Nlt::build_from_key_value_pairs(&pairs, &tcfg)?, false),
+        }) });
+        let (mut store, is_sorted) = match built { Ok(Ok(x)) => x, Ok(Err(e)) if e.to_string().contains("ZV:") => return fail("nlt_inmem_diverged", e.to_string()), Ok(Err(_)) => { c.note("builder_refused", 1); c.set_nontrivial(false); return Ok(()); } Err(p) => return Err(bad(&p.class(), format!("NestLoudsTrieBlobStore build (route {route}) panicked at {}: {}", p.loc, p.msg))) };
+        if route == 2 { ensure!(progress == pairs.len(), "nlt_inmem_diverged", "finish_with_progress last reported {} of {}", progress, pairs.len()); }
+        let mut order = pairs.clone(); if is_sorted { order.sort_by(|a, b| a.0.cmp(&b.0)); }
+        if let Err(p) = catch(|| store.finalize()).map_err(|p| bad(&p.class(), format!("finalize panicked at {}", p.loc))).and_then(|r| r.map_err(|e| bad("op_err", format!("finalize failed: {e}")))) { if p.oracle == "op_err" { c.note("builder_refused", 1); c.set_nontrivial(false); return Ok(()); } return Err(p); }
+        ensure!(store.is_finalized(), "nlt_inmem_diverged", "is_finalized() false after finalize()");
+        match catch(|| nlt_check(&mut store, &pairs, c)) { Ok(r) => r?, Err(p) => return Err(bad(&p.class(), format!("keyed read-back panicked at {}: {}", p.loc, p.msg))) }
+        // model: the records in record-id order
+        let mut m = (order.len() as u64).to_le_bytes().to_vec(); for (_, v) in &order { m.extend_from_slice(&(v.len() as u64).to_le_bytes()); m.extend_from_slice(v); }
+        let outer = canon_blobs(&store).map_err(|e| bad("inmem_read_err", e))?;
+        ensure!(outer == m, "nlt_inmem_diverged", "get(id) over 0..len() of the trie store differs from the values in insertion order (route {})", route);
+        let inner = match store.blob_store() { Some(b) => b, None => return fail("nlt_inmem_diverged", "blob_store() is None after finalize()") };
+        let im = canon_blobs(inner).map_err(|e| bad("inmem_read_err", format!("inner store: {e}")))?;
+        // ZipOffsetBlobStoreBuilder::finish() is a documented placeholder (returns an empty store): as in the zipoffset target the
+        // model of the FILE is what the in-memory inner store presents at save time; the difference is kept as a counter
+        c.note("records_put", order.len() as u64); c.note("records_in_inner_store_at_save", inner.len() as u64);
+        let m = im;
+        match catch(|| inner.save_to_file(&path)) { Ok(Ok(())) => {} Ok(Err(e)) => return Err(bad("op_err", format!("save_to_file failed: {e}"))), Err(p) => return Err(bad(&p.class(), format!("save panicked at {}", p.loc))) }
+        models.push(m);
+        snaps.push(Snap { bytes: std::fs::read(&path).map_err(|e| bad("harness_io", e.to_string()))?, upto: models.len(), model: models.len() - 1 });
+    }
+    let h = Hist { snaps, models, hdr: 128, esz: 1, dirty: None, extra: vec![] };
+    let mk = |p: &Path| json!({"k": "zipoffset_cached", "path": p.to_string_lossy()});
+    single_file_case(c, if fam == "nlt_clean" { "clean" } else { "trunc" }, &h, td.path(), &mk, None)
+}
+
+/// single_file_case with at most `cap` fault states (expensive child jobs)
+fn single_file_case_cap(c: &mut Case, fam: &str, h: &Hist, dir: &Path, mk: &dyn Fn(&Path) -> Value, cap: usize) -> Res {
+    let mut rng = c.rng.fork();
+    let mut states = if fam == "clean" { clean_states(h) } else { if h.snaps.is_empty() { c.set_nontrivial(false); return Ok(()); } let i = if rng.bool() { h.snaps.len() - 1 } else { rng.usize_below(h.snaps.len()) }; fault_states(fam, h, i, &mut rng, true) };
+    if states.len() > cap { let head: Vec<FState> = states.drain(..cap / 3).collect(); rng.shuffle(&mut states); states.truncate(cap - head.len()); let mut v = head; v.extend(states); states = v; }
+    c.tag(&format!("f:{fam}"));
+    let mut agg = Agg::for_family(fam);
+    let outs = run_file_states2(c, dir, &states, mk, &h.models, None, None, &mut agg);
+    for o in &outs { if let Out::Ok { notes, .. } = o { for (k, v) in notes { c.note(k, *v); } } }
+    c.set_nontrivial(!states.is_empty() && h.models.iter().any(|m| m.len() > 8));
+    agg.finish(c)
+}
+
+// ---- sa_dict: find_all_matches, is_external_mode, ConcurrentSuffixArrayDictionary
+fn canon_dict_m(d: &mut SuffixArrayDictionary, probes: &[Vec<u8>]) -> Result<Vec<u8>, String> {
+    let mut out = canon_dict(d, probes)?;
+    let t = d.dictionary_text().to_vec();
+    for p in probes { if p.is_empty() { continue; }
+        let truth = if p.len() <= t.len() { t.windows(p.len()).filter(|w| *w == &p[..]).count() } else { 0 };
+        for maxm in [1usize, 64] {
+            let ms = d.find_all_matches(p, maxm).map_err(|e| format!("find_all_matches failed: {e}"))?;
+            if ms.len() > maxm || ms.len() > truth { return Err(format!("find_all_matches(len {}, max {maxm}) returned {} matches; the text holds {truth} occurrences", p.len(), ms.len())); }
+            let mut seen = BTreeSet::new();
+            for m in &ms { if m.length != p.len() || m.dict_position + m.length > t.len() || t[m.dict_position..m.dict_position + m.length] != p[..] { return Err(format!("find_all_matches: match (pos {}, len {}) is not an occurrence of the {}-byte pattern", m.dict_position, m.length, p.len())); }
+                if !seen.insert(m.dict_position) { return Err(format!("find_all_matches: position {} reported twice", m.dict_position)); } }
+            out.extend_from_slice(&(ms.len() as u64).to_le_bytes());
+        }
+    }
+    Ok(out)
+}
+fn child_sadict_m(path: &Path, job: &Value) -> CR {
+    let mut d = match SuffixArrayDictionary::load_from_file(path) { Ok(d) => d, Err(e) => return CR::Err(e.to_string()) };
+    let probes = read_probes(job);
+    match canon_dict_m(&mut d, &probes) { Ok(c) => CR::Ok { len: d.dictionary_size() as u64, content: c, notes: vec![("external_mode_after_load".into(), d.is_external_mode() as u64)] }, Err(e) => CR::Incons(e) }
+}
+fn sadict_m_case(c: &mut Case, fam: &str) -> Res {
+    let td = tempfile::tempdir().map_err(|e| bad("harness_io", e.to_string()))?;
+    let path = td.path().join("dict.bin"); let aux = td.path().join("probes.bin");
+    let texts: Vec<Vec<u8>> = (0..2).map(|_| dict_text(c, 3000)).collect();
+    let probes = dict_probes(c, &texts); write_probes(&aux, &probes);
+    let mut snaps = Vec::new(); let mut models: Vec<Vec<u8>> = Vec::new();
+    for (ver, t) in texts.iter().enumerate() {
+        c.input(&format!("text{ver}"), t);
+        let ext = c.rng.bool();
+        let cfg = SuffixArrayDictionaryConfig { external_mode: ext, use_memory_pool: false, min_frequency: 2 + c.rng.below(3) as u32, max_bfs_depth: 2 + c.rng.below(3) as u32, min_pattern_length: 2 + c.rng.usize_below(4), max_pattern_length: 32 + c.rng.usize_below(300), ..Default::default() };
+        c.input_str(&format!("cfg{ver}"), &format!("ext={ext} min={} max={}", cfg.min_pattern_length, cfg.max_pattern_length));
+        let mut d = match catch(|| SuffixArrayDictionary::new(t, cfg.clone())) { Ok(Ok(d)) => d, Ok(Err(e)) => return Err(bad("op_err", format!("dictionary build failed: {e}"))), Err(p) => return Err(bad(&p.class(), format!("dictionary build panicked at {}: {}", p.loc, p.msg))) };
+        ensure!(d.is_external_mode() == ext, "inmem_diverged", "is_external_mode() = {} for external_mode = {}", d.is_external_mode(), ext);
+        let m = match catch(|| canon_dict_m(&mut d, &probes)) { Ok(Ok(m)) => m, Ok(Err(e)) => return inconclusive(format!("in-memory dictionary fails its own read-back: {e}")), Err(p) => return inconclusive(format!("in-memory dictionary read-back panicked at {}", p.loc)) };
+        // the lock-wrapped dictionary over the same text answers like the plain one
+        match catch(|| -> Result<(), String> { let cd = ConcurrentSuffixArrayDictionary::new(t, cfg.clone()).map_err(|e| format!("new failed: {e}"))?;
+            for p in &probes { let a = cd.find_longest_match(p, 0, p.len()).map_err(|e| e.to_string())?.map(|m| (m.length, m.dict_position)); let b = d.find_longest_match(p, 0, p.len()).map_err(|e| e.to_string())?.map(|m| (m.length, m.dict_position)); if a != b { return Err(format!("{a:?} vs {b:?} for a {}-byte probe", p.len())); } }
+            let _ = cd.match_stats(); Ok(()) }) { Ok(Ok(())) => c.ev(probes.len() as u64), Ok(Err(e)) => return fail("concurrent_dict_differs", e), Err(p) => return Err(bad(&p.class(), format!("ConcurrentSuffixArrayDictionary panicked at {}", p.loc))) }
+        match catch(|| d.save_to_file(&path)) { Ok(Ok(())) => {} Ok(Err(e)) => return Err(bad("op_err", format!("save_to_file failed: {e}"))), Err(p) => return Err(bad(&p.class(), format!("save panicked at {}", p.loc))) }
+        models.push(m);
+        snaps.push(Snap { bytes: std::fs::read(&path).map_err(|e| bad("harness_io", e.to_string()))?, upto: models.len(), model: models.len() - 1 });
+    }
+    let h = Hist { snaps, models, hdr: 8, esz: 1, dirty: None, extra: vec![] };
+    let auxs = aux.to_string_lossy().to_string();
+    let mk = move |p: &Path| json!({"k": "sadict_m", "aux": auxs, "path": p.to_string_lossy()});
+    single_file_case_cap(c, if fam == "matches_clean" { "clean" } else { "trunc" }, &h, td.path(), &mk, 40)
+}
+
+// ---- dictzip: load_dictionary into a live store; builder setters, presets, build_from_* constructors; iter_ids_vec / iter_blobs_vec
+fn child_dictzip_load(path: &Path, job: &Value) -> CR {
+    let base = job["base"].as_str().unwrap_or("");
+    let mut s = match DictZipBlobStore::from_dictionary_file(base, DictZipConfig::default()) { Ok(s) => s, Err(e) => return CR::Incons(format!("harness: base dictionary does not load: {e}")) };
+    let _ = s.put(b"a record stored before the dictionary is replaced, a record stored before");
+    if let Err(e) = s.load_dictionary(path) { return CR::Err(e.to_string()); }
+    let stale = s.iter_ids_vec().len() as u64;
+    let probes = read_probes(job);
+    let mut out = Vec::new();
+    for p in &probes { let ok = match s.put(p) { Ok(id) => matches!(s.get(id), Ok(ref d) if d == p), Err(_) => false }; out.push(ok as u8); }
+    CR::Ok { len: probes.len() as u64, content: out, notes: vec![("records_surviving_load".into(), stale)] }
+}
+fn dictzip_load_case(c: &mut Case, fam: &str) -> Res {
+    let td = tempfile::tempdir().map_err(|e| bad("harness_io", e.to_string()))?;
+    let path = td.path().join("dz.dict"); let aux = td.path().join("probes.bin"); let base = td.path().join("base.dict"); let tf = td.path().join("train.bin");
+    let texts: Vec<Vec<u8>> = (0..2).map(|_| dict_text(c, 2500)).collect();
+    let probes = dict_probes(c, &texts); write_probes(&aux, &probes);
+    let mut snaps = Vec::new(); let mut models: Vec<Vec<u8>> = Vec::new();
+    let tcfg = zipora::config::nest_louds_trie::NestLoudsTrieConfig::default();
+    for (ver, t) in texts.iter().enumerate() {
+        c.input(&format!("text{ver}"), t);
+        let route = c.rng.below(6); let preset = c.rng.below(5);
+        let mut cfg = match preset { 0 => DictZipConfig::default(), 1 => DictZipConfig::text_compression(), 2 => DictZipConfig::binary_compression(), 3 => DictZipConfig::log_compression(), _ => DictZipConfig::realtime_compression() };
+        cfg.dict_builder_config.use_parallel = false; cfg.dict_builder_config.enable_progress = false;
+        let cfg = cfg.with_cache_size_mb(1 + c.rng.usize_below(4)).with_min_compression_size(*c.rng.pick(&[16usize, 32, 64, 256]));
+        let mf = 1 + c.rng.below(4) as u32;
+        c.input_str(&format!("route{ver}"), &format!("{route}/preset{preset}/mf{mf}"));
+        // the NestLoudsTrieConfig-mapped constructors use deep BFS presets: keep their training text short (cost)
+        let t: &Vec<u8> = &(if route >= 4 { t[..t.len().min(400)].to_vec() } else if route == 3 { t[..t.len().min(1200)].to_vec() } else { t.clone() });
+        let chunks: Vec<Vec<u8>> = t.chunks(400).map(|x| x.to_vec()).collect();
+        let calls = std::sync::Arc::new(std::sync::atomic::AtomicU64::new(0)); let calls2 = calls.clone(); let t0 = std::time::Instant::now();
+        let r = catch(|| -> zipora::error::Result<DictZipBlobStore> { match route {
+            0 => { let mut b = DictZipBlobStoreBuilder::with_config(cfg)?; b.add_training_samples(chunks.clone())?; if b.training_stats() != (chunks.len(), t.len()) { return Err(zipora::error::ZiporaError::invalid_data("ZV: training_stats()")); } b.set_min_frequency(mf)?; b.finish() }
+            1 => { std::fs::write(&tf, t)?; let mut b = DictZipBlobStoreBuilder::with_config(cfg)?; b.add_training_file(&tf)?; if b.training_stats() != (1, t.len()) { return Err(zipora::error::ZiporaError::invalid_data("ZV: training_stats()")); } b.set_dict_size_mb(1)?; b.enable_advanced_caching()?; b.set_progress_callback(move |_p| { calls2.fetch_add(1, std::sync::atomic::Ordering::Relaxed); }); b.finish() }
+            2 => { let mut b = DictZipBlobStoreBuilder::new()?; for ch in &chunks { b.add_training_sample(ch)?; } b.finish() }
+            3 => DictZipBlobStore::build_from_training_samples(&chunks, &tcfg),
+            4 => DictZipBlobStore::build_from_vec_u8(t, &tcfg),
+            _ => { let mut sv = zipora::containers::specialized::SortableStrVec::new(); for ch in t.chunks(60) { sv.push_str(&String::from_utf8_lossy(ch))?; } DictZipBlobStore::build_from_sortable_str_vec(&sv, &tcfg) }
+        } });
+        let mut store = match r { Ok(Ok(s)) => s, Ok(Err(e)) if e.to_string().contains("ZV:") => return fail("inmem_diverged", e.to_string()), Ok(Err(_)) => { c.note("builder_refused", 1); c.set_nontrivial(false); return Ok(()); } Err(p) => return Err(bad(&p.class(), format!("dictzip build (route {route}) panicked at {}: {}", p.loc, p.msg))) };
+        c.log(format!("dictzip_load: route {route} preset {preset} built in {:?}", t0.elapsed()));
+        if route == 1 { c.note("progress_callbacks", calls.load(std::sync::atomic::Ordering::Relaxed)); }
+        match catch(|| store.save_dictionary(&path)) { Ok(Ok(())) => {} Ok(Err(e)) => return Err(bad("op_err", format!("save_dictionary failed: {e}"))), Err(p) => return Err(bad(&p.class(), format!("save_dictionary panicked at {}", p.loc))) }
+        let mut ids: Vec<(u32, usize)> = Vec::new();
+        let m = match catch(|| probes.iter().enumerate().map(|(i, p)| match store.put(p) { Ok(id) => { ids.push((id, i)); matches!(store.get(id), Ok(ref d) if d == p) as u8 } Err(_) => 0u8 }).collect::<Vec<u8>>()) { Ok(m) => m, Err(p) => return inconclusive(format!("in-memory store put/get panicked at {}", p.loc)) };
+        c.log(format!("dictzip_load: save+probes done at {:?}", t0.elapsed()));
+        // listing == the puts made
+        let mut listed = store.iter_ids_vec(); listed.sort(); let mut put_ids: Vec<u32> = ids.iter().map(|x| x.0).collect(); put_ids.sort();
+        ensure!(listed == put_ids, "iter_ids_mismatch", "iter_ids_vec() lists {} ids, {} puts succeeded", listed.len(), put_ids.len());
+        if m.iter().all(|&b| b == 1) { match catch(|| store.iter_blobs_vec()) { Ok(Ok(mut bl)) => { bl.sort(); let mut want: Vec<(u32, Vec<u8>)> = ids.iter().map(|(id, i)| (*id, probes[*i].clone())).collect(); want.sort(); ensure!(bl == want, "iter_blobs_mismatch", "iter_blobs_vec() returned {} pairs that differ from the {} records put", bl.len(), want.len()); c.ev(1); }
+            Ok(Err(e)) => return fail("iter_blobs_mismatch", format!("iter_blobs_vec() failed although every get(id) succeeds: {e}")), Err(p) => return Err(bad(&p.class(), format!("iter_blobs_vec panicked at {}", p.loc))) } }
+        match catch(|| (store.validate().is_ok(), store.optimize().is_ok())) { Ok((v, o)) => { c.note("validate_ok", v as u64); c.note("optimize_ok", o as u64); } Err(p) => return Err(bad(&p.class(), format!("validate/optimize panicked at {}", p.loc))) }
+        c.log(format!("dictzip_load: iter+validate done at {:?}", t0.elapsed()));
+        c.note("probe_roundtrips_ok_inmem", m.iter().filter(|&&x| x == 1).count() as u64);
+        models.push(m);
+        let bytes = std::fs::read(&path).map_err(|e| bad("harness_io", format!("dictionary file missing: {e}")))?;
+        if ver == 0 { std::fs::write(&base, &bytes).map_err(|e| bad("harness_io", e.to_string()))?; }
+        snaps.push(Snap { bytes, upto: models.len(), model: models.len() - 1 });
+    }
+    let h = Hist { snaps, models, hdr: 8, esz: 1, dirty: None, extra: vec![] };
+    let auxs = aux.to_string_lossy().to_string(); let bases = base.to_string_lossy().to_string();
+    let mk = move |p: &Path| json!({"k": "dictzip_load", "aux": auxs, "base": bases, "path": p.to_string_lossy()});
+    single_file_case_cap(c, if fam == "load_clean" { "clean" } else { "trunc" }, &h, td.path(), &mk, 14)
+}
+
+// ---- mmapvec: with_capacity_simd, copy_from_simd, compare_range_simd, path(), every MmapVecConfigBuilder setter
+fn mmapvec_simd_case_t<T: El>(c: &mut Case, fam: &str, tname: &str) -> Res {
+    let td = tempfile::tempdir().map_err(|e| bad("harness_io", e.to_string()))?;
+    let path = td.path().join("vec.mmap");
+    let wcfg = format!("bld:{}:0:{}:{}", *c.rng.pick(&[0usize, 1, 8, 100]), c.rng.bool() as u8, c.rng.bool() as u8);
+    c.input_str("elem", tname); c.input_str("writer_cfg", &wcfg);
+    let mut prog = String::new();
+    let mut models: Vec<Vec<u8>> = vec![vec![]]; let mut snaps: Vec<Snap> = Vec::new();
+    macro_rules! okop { ($r:expr, $what:expr) => { match catch(|| $r) { Ok(Ok(x)) => x, Ok(Err(e)) => return Err(bad("op_err", format!("{} failed: {e} (program: {prog})", $what))), Err(p) => return Err(bad(&p.class(), format!("{} panicked at {}: {} (program: {prog})", $what, p.loc, p.msg))) } } }
+    let mut v = okop!(MmapVec::<T>::create(&path, preset(&wcfg)), "create");
+    ensure!(v.path() == path.as_path(), "inmem_diverged", "path() = {:?}, created at {:?}", v.path(), path);
+    let rounds = 2 + c.rng.usize_below(3);
+    for round in 0..rounds {
+        let n = match c.rng.below(4) { 0 => *c.rng.pick(&[0usize, 1, 15, 16, 17, 63, 64, 65]), 1 => 1000 + c.rng.usize_below(9000), _ => c.rng.usize_below(300) };
+        let cap = if c.rng.bool() { n } else { c.rng.usize_below(2 * n + 2) };
+        let items = vals::<T>(c, n);
+        prog.push_str(&format!("src(cap{cap},len{n});"));
+        let mut src = okop!(MmapVec::<T>::with_capacity_simd(cap), "with_capacity_simd");
+        ensure!(src.len() == 0 && src.capacity() >= cap, "inmem_diverged", "with_capacity_simd({}) has len {} capacity {}", cap, src.len(), src.capacity());
+        okop!(src.push_bulk_simd(&items), "push_bulk_simd");
+        // some unrelated content first, so that the copy both shrinks and grows the destination
+        if c.rng.bool() { let k = c.rng.usize_below(2 * n + 20); let pre = vals::<T>(c, k); okop!(v.push_bulk_simd(&pre), "push_bulk_simd"); prog.push_str(&format!("pre{k};")); }
+        okop!(v.copy_from_simd(&src), "copy_from_simd"); prog.push_str("copy_from;");
+        ensure!(el_bytes(v.as_slice()) == el_bytes(&items), "inmem_diverged", "after copy_from_simd the destination has {} elements, source {} (program: {})", v.len(), n, prog);
+        // compare_range_simd over prefixes 0..k (self[0..k] against other[0..k])
+        for k in [n, n / 2, n.min(7)] { let eq = okop!(v.compare_range_simd(0..k, &src), "compare_range_simd"); ensure!(eq, "inmem_diverged", "compare_range_simd(0..{}) is false for identical content (program: {})", k, prog); c.ev(1); }
+        if n > 0 { let i = c.rng.usize_below(n); let old = items[i]; let mut x = T::mk(c.rng.next()); if x == old { x = T::mk(c.rng.next() ^ 0x5555); }
+            if x != old { if let Some(r) = v.get_mut(i) { *r = x; } let eq = okop!(v.compare_range_simd(0..n, &src), "compare_range_simd"); ensure!(!eq, "inmem_diverged", "compare_range_simd(0..{}) is true although element {} differs (program: {})", n, i, prog);
+                if let Some(r) = v.get_mut(i) { *r = old; } } }
+        ensure!(v.compare_range_simd(0..n + 1, &src).is_err(), "inmem_diverged", "compare_range_simd beyond len is not refused");
+        models.push(el_bytes(&items));
+        if round + 1 == rounds || c.rng.bool() { okop!(v.sync(), "sync"); prog.push_str("SYNC;"); snaps.push(Snap { bytes: std::fs::read(&path).map_err(|e| bad("harness_io", e.to_string()))?, upto: models.len(), model: models.len() - 1 }); }
+        drop(src);
+    }
+    drop(v);
+    c.input_str("program", &prog); c.hash_more(&models.last().unwrap()[..models.last().unwrap().len().min(256)]);
+    let h = Hist { snaps, models, hdr: MMAPVEC_HDR, esz: T::SZ, dirty: None, extra: vec![] };
+    let mut rng = c.rng.fork();
+    let mut states = if fam == "simd_clean" { clean_states(&h) } else { let i = h.snaps.len() - 1; fault_states("trunc", &h, i, &mut rng, c.tier == crate::ctx::Tier::Quick) };
+    if states.len() > 60 { let keep: Vec<FState> = states.drain(..).enumerate().filter(|(i, _)| i % 3 == 0 || *i < 20).map(|x| x.1).collect(); states = keep; }
+    c.tag(&format!("f:{fam}"));
+    mmapvec_tags(c, &mut states, T::SZ);
+    let open = format!("bld:8:{}:{}:{}", rng.bool() as u8, rng.bool() as u8, rng.bool() as u8); c.input_str("open_preset", &open);
+    let mut agg = Agg::for_family(if fam == "simd_clean" { "clean" } else { "trunc" });
+    let tn = tname.to_string();
+    let mk = move |p: &Path| json!({"k": "mmapvec", "t": tn, "open": open, "path": p.to_string_lossy()});
+    run_file_states(c, td.path(), &states, &mk, &h.models, Some((MMAPVEC_HDR, T::SZ)), &mut agg);
+    c.set_nontrivial(!states.is_empty() && h.models.iter().any(|m| !m.is_empty()));
+    agg.finish(c)
+}
+fn mmapvec_simd_case(c: &mut Case, fam: &str) -> Res {
+    let t = *c.rng.pick(&["u8", "u32", "u64", "b3"]);
+    match t { "u8" => mmapvec_simd_case_t::<u8>(c, fam, t), "u32" => mmapvec_simd_case_t::<u32>(c, fam, t), "u64" => mmapvec_simd_case_t::<u64>(c, fam, t), _ => mmapvec_simd_case_t::<[u8; 3]>(c, fam, t) }
+}
+
+// ---- plain: create_new (must leave no earlier record behind), base_dir
+fn plain_create_new_case(c: &mut Case) -> Res {
+    let td = tempfile::tempdir().map_err(|e| bad("harness_io", e.to_string()))?;
+    let sdir = td.path().join("store");
+    let mut prog = String::new();
+    let pre_exists = c.rng.chance(3, 4);
+    if pre_exists { let mut st = PlainBlobStore::new(&sdir).map_err(|e| bad("op_err", format!("new: {e}")))?; let k = c.rng.usize_below(6);
+        for _ in 0..k { let d = gen::bytes_any(&mut c.rng, 300).1; c.input("old_blob", &d); st.put(&d).map_err(|e| bad("op_err", format!("put failed: {e}")))?; } prog.push_str(&format!("new;put*{k};drop;"));
+        if c.rng.chance(1, 3) { let _ = std::fs::write(sdir.join("77.tmp"), b"stray"); prog.push_str("stray77.tmp;"); } }
+    let mut store = match catch(|| PlainBlobStore::create_new(&sdir)) { Ok(Ok(s)) => s, Ok(Err(e)) => return Err(bad("op_err", format!("create_new failed: {e}"))), Err(p) => return Err(bad(&p.class(), format!("create_new panicked at {}", p.loc))) };
+    prog.push_str("create_new;");
+    ensure!(store.base_dir() == sdir.as_path(), "inmem_diverged", "base_dir() = {:?}, want {:?}", store.base_dir(), sdir);
+    ensure!(store.len() == 0 && store.iter_ids().next().is_none(), "create_new_not_empty", "create_new() store lists {} records", store.iter_ids().count());
+    let mut recs: BTreeMap<u32, Vec<u8>> = BTreeMap::new(); let mut models = vec![plain_model(&recs)];
+    let mut states: Vec<DState> = vec![DState { desc: "directory right after create_new".into(), files: snap_dir(&sdir), lo: 0, hi: 1, clean: true, solo: false }];
+    let k = c.rng.usize_below(6);
+    for _ in 0..k { let d = gen::bytes_any(&mut c.rng, 700).1; c.input("blob", &d);
+        let id = match catch(|| store.put(&d)) { Ok(Ok(id)) => id, Ok(Err(e)) => return Err(bad("op_err", format!("put failed: {e}"))), Err(p) => return Err(bad(&p.class(), format!("put panicked at {}", p.loc))) };
+        if recs.contains_key(&id) { return Err(bad("id_reused_live", format!("put returned id {id} which is still live ({prog})"))); }
+        prog.push_str(&format!("put{}->{id};", d.len())); recs.insert(id, d); models.push(plain_model(&recs)); }
+    drop(store);
+    states.push(DState { desc: "clean final directory".into(), files: snap_dir(&sdir), lo: models.len() - 1, hi: models.len(), clean: true, solo: false });
+    c.input_str("program", &prog); c.tag("f:create_new");
+    let mut jobs = Vec::new();
+    for (i, s) in states.iter().enumerate() { let d = td.path().join(format!("d{i}")); let _ = std::fs::create_dir_all(&d); for (n, b) in &s.files { let _ = std::fs::write(d.join(n), b); } jobs.push(json!({"k": "plain", "path": d.to_string_lossy()})); }
+    let outs = run_jobs(td.path(), &mut jobs, c.verbose);
+    let mut agg = Agg::for_family("clean");
+    for (s, o) in states.iter().zip(outs.iter()) { let total: usize = s.files.values().map(|b| b.len()).sum(); let fs = FState { desc: s.desc.clone(), bytes: vec![0u8; total.min(1)], lo: s.lo, hi: s.hi, clean: s.clean, solo: false }; judge(&mut agg, &fs, o, &models, None); }
+    c.set_nontrivial(pre_exists || !recs.is_empty());
+    agg.finish(c)
+}
+
+fn run_gap(ctx: &mut Ctx) {
+    for fam in ["api_clean", "api_trunc"] { for idx in 0..ctx.n(6, 100) as u64 { ctx.case("io_mmap", fam, idx, |c| io_api_case(c, fam)); } }
+    for (fam, inner) in [("cursor_clean", "clean"), ("cursor_trunc", "trunc")] { for idx in 0..ctx.n(6, 120) as u64 { ctx.case("reorder", fam, idx, |c| reorder_case_k(c, inner, "reorder_cursor")); } }
+    for fam in ["cached_clean", "cached_trunc"] { for idx in 0..ctx.n(3, 40) as u64 { ctx.case("zipoffset", fam, idx, |c| zipoffset_cached_case(c, fam)); } }
+    for fam in ["nlt_clean", "nlt_trunc"] { for idx in 0..ctx.n(6, 100) as u64 { ctx.case("nlt_zipoffset", fam, idx, |c| nlt_case(c, fam)); } }
+    for fam in ["matches_clean", "matches_trunc"] { for idx in 0..ctx.n(3, 60) as u64 { ctx.case("sa_dict", fam, idx, |c| sadict_m_case(c, fam)); } }
+    for fam in ["load_clean", "load_trunc"] { for idx in 0..ctx.n(3, 40) as u64 { ctx.case("dictzip", fam, idx, |c| dictzip_load_case(c, fam)); } }
+    for fam in ["simd_clean", "simd_trunc"] { for idx in 0..ctx.n(5, 100) as u64 { ctx.case("mmapvec/default", fam, idx, |c| mmapvec_simd_case(c, fam)); } }
+    for idx in 0..ctx.n(8, 150) as u64 { ctx.case("plain", "create_new", idx, |c| plain_create_new_case(c)); }
+}
+
 // =============================================================================================
 // run
 // =============================================================================================
@@ -1124,4 +1587,5 @@ pub fn run(ctx: &mut Ctx) {
     for (fam, q, t) in [("huge_clean", 2, 12), ("huge_trunc", 1, 8)] { for idx in 0..ctx.n(q, t) as u64 { ctx.case("sa_dict", fam, idx, |c| sadict_case(c, fam)); } }
     // (dictzip: a dictionary build over >= 64 KiB of training data costs ~17 s per case; not run, the file format is the sa_dict one)
     for fam in ["huge_clean", "huge_run_trunc"] { for idx in 0..ctx.n(4, 40) as u64 { ctx.case("extsort", fam, idx, |c| extsort_case(c, fam)); } }
+    run_gap(ctx);
 }
